@@ -418,6 +418,10 @@ func (v *Verifier) structural(cfg PropConfig, sc StructuralCheck) []StructResult
 		return v.eventLoggedOnce(cfg, sc)
 	case "globals_init_only":
 		return v.globalsInitOnly(cfg, sc)
+	case "field_const_writes":
+		return v.fieldConstWrites(cfg, sc)
+	case "mutator_on_fresh":
+		return v.mutatorOnFresh(cfg, sc)
 	case "callers_subset":
 		var a struct {
 			Callee  string   `json:"callee"`
